@@ -39,6 +39,15 @@ RegisterExact(reg2, me) ==
   /\ Ev.ownraw = Ev.own                                            \* local_state_raw
   /\ Ev.cid = me
 
+(* the read paths agree with each other (the register they show is adopted as the successor state) *)
+ReadsAgree(me) ==
+  LET r == RecReg(Ev.reg) IN
+  /\ NoDupClients(Ev.reg) /\ NoDupClients(Ev.acc)
+  /\ RecReg(Ev.acc) = r                         \* Awareness::meta + Awareness::state  vs  Awareness::iter
+  /\ Ev.own = (IF Live(r, me) THEN r[me].data ELSE Null)     \* local_state
+  /\ Ev.ownraw = Ev.own                                      \* local_state_raw
+  /\ Ev.cid = me
+
 Failing(chk) == {chk[i][1] : i \in {j \in 1..Len(chk) : ~chk[j][2]}}
 Record(chk) ==
   /\ viol' = viol \cup {<<bid, p, l>> : p \in Failing(chk)}
@@ -63,18 +72,23 @@ Skip ==
   /\ UNCHANGED <<bid, st, obsv, upd, got, seen, failed, viol, drift, cnt>>
 
 (* local operation: the recorded register is the specification's successor *)
-LocalOp(p, reg2) ==
+(* reg2 = the specification's own successor (implementation-level prediction: DRIFT when the recorded register differs *)
+(* from it but satisfies the property-level step relation `stepok`); the RECORDED register is adopted                  *)
+LocalOp(p, reg2, stepok) ==
   LET rec2 == RecReg(Ev.reg)
+      wf   == NoDupClients(Ev.reg)
       chk == << <<"C18_NoFailure", Ev.outcome = "ok">>,
-                <<"C18_RegisterExact", RegisterExact(reg2, p)>>,
-                <<"C18_ClockMonotone", NoDupClients(Ev.reg) /\ C18_ClockMonotone(st[p], rec2)>> >>
+                <<"C18_ReadsAgree", ReadsAgree(p)>>,
+                <<"C18_LocalStep", wf /\ stepok>>,
+                <<"C18_ClockMonotone", wf /\ C18_ClockMonotone(st[p], rec2)>> >>
   IN /\ Record(chk)
-     /\ st' = [st EXCEPT ![p] = reg2]
-     /\ UNCHANGED <<bid, obsv, upd, got, seen, drift>>
+     /\ st' = [st EXCEPT ![p] = IF wf THEN rec2 ELSE reg2]
+     /\ drift' = IF wf /\ rec2 # reg2 THEN drift \cup {<<bid, "awareness-clock-policy", l>>} ELSE drift
+     /\ UNCHANGED <<bid, obsv, upd, got, seen>>
 
-Set   == Ev.k = "set"   /\ ~failed /\ LocalOp(Ev.p, SetLocal(st[Ev.p], Ev.p, Ev.v))
-Clean == Ev.k = "clean" /\ ~failed /\ LocalOp(Ev.p, CleanLocal(st[Ev.p], Ev.p))
-Rem   == Ev.k = "rem"   /\ ~failed /\ LocalOp(Ev.p, RemoveState(st[Ev.p], Ev.c))
+Set   == Ev.k = "set"   /\ ~failed /\ LocalOp(Ev.p, SetLocal(st[Ev.p], Ev.p, Ev.v), C18_SetStep(st[Ev.p], Ev.p, Ev.v, RecReg(Ev.reg)))
+Clean == Ev.k = "clean" /\ ~failed /\ LocalOp(Ev.p, CleanLocal(st[Ev.p], Ev.p), C18_RemoveStep(st[Ev.p], Ev.p, RecReg(Ev.reg)))
+Rem   == Ev.k = "rem"   /\ ~failed /\ LocalOp(Ev.p, RemoveState(st[Ev.p], Ev.c), C18_RemoveStep(st[Ev.p], Ev.c, RecReg(Ev.reg)))
 
 (* an update is cut: every entry is the register's entry for that client, unchanged by   *)
 (* the wire.  A subset update carries exactly the requested clients; a full update        *)
@@ -116,12 +130,14 @@ App ==
                    <<"C18_Idempotent", wf /\ (u \in {upd[i] : i \in got[p]} => rec2 = reg)>>,
                    <<"C18_OrderInsensitive", wf /\ (isObs => C18_OrderInsensitive(seen, app2, rec2))>>,
                    <<"C18_LastWriterWins", wf /\ (isObs => C18_IsMaximum(rec2, UNION app2))>>,
-                   <<"C18_RegisterExact", RegisterExact(reg2, p)>> >>
+                   <<"C18_ReadsAgree", ReadsAgree(p)>>,
+                   <<"C18_ApplyStep", wf /\ C18_ApplyStep(reg, p, u, rec2)>> >>
      IN /\ Record(chk)
-        /\ st' = [st EXCEPT ![p] = reg2]
+        /\ st' = [st EXCEPT ![p] = IF wf THEN rec2 ELSE reg2]
+        /\ drift' = IF wf /\ rec2 # reg2 THEN drift \cup {<<bid, "awareness-clock-policy", l>>} ELSE drift
         /\ got' = [got EXCEPT ![p] = @ \cup {Ev.u}]
         /\ seen' = IF isObs /\ wf THEN seen \cup {<<app2, rec2>>} ELSE seen
-  /\ UNCHANGED <<bid, obsv, upd, drift>>
+  /\ UNCHANGED <<bid, obsv, upd>>
 
 TInit == /\ l = 1 /\ bid = "" /\ st = EmptyFn /\ obsv = {} /\ upd = <<>> /\ got = EmptyFn /\ seen = {}
          /\ failed = FALSE /\ viol = {} /\ drift = {} /\ cnt = [beh |-> 0, ev |-> 0, checks |-> 0]
